@@ -58,6 +58,11 @@ type metaBlob struct {
 type metaBlobHeap struct {
 	sync.Mutex
 	s []*metaBlob
+	// scanning is whether readAllMetaBlobs is still enumerating the meta
+	// blobs. Nothing is packed until it has seen them all: packing deletes
+	// meta blobs, among them packed ones written since the scan began, which
+	// the scan may have listed but not fetched yet.
+	scanning bool
 }
 
 var _ heap.Interface = (*metaBlobHeap)(nil)
@@ -88,6 +93,15 @@ func (s *storage) recordMeta(b *metaBlob) {
 	s.smallMeta.Lock()
 	defer s.smallMeta.Unlock()
 	heap.Push(s.smallMeta, b)
+	s.packSmallMetaLocked()
+}
+
+// packSmallMetaLocked starts packing the small meta blobs if there are
+// enough of them. s.smallMeta must be locked.
+func (s *storage) packSmallMetaLocked() {
+	if s.smallMeta.scanning {
+		return
+	}
 
 	// If the heap is full, pop and group the entries under the lock,
 	// then schedule upload, deletion and reinserion in parallel.
@@ -267,6 +281,10 @@ func (s *storage) readAllMetaBlobs() error {
 	}
 	metac := make(chan encMB, 16)
 
+	s.smallMeta.Lock()
+	s.smallMeta.scanning = true
+	s.smallMeta.Unlock()
+
 	const maxInFlight = 5 // arbitrary
 	var gate = make(chan bool, maxInFlight)
 
@@ -334,5 +352,13 @@ func (s *storage) readAllMetaBlobs() error {
 		}
 	}
 
-	return <-enumErrc
+	if err := <-enumErrc; err != nil {
+		return err
+	}
+
+	s.smallMeta.Lock()
+	defer s.smallMeta.Unlock()
+	s.smallMeta.scanning = false
+	s.packSmallMetaLocked()
+	return nil
 }
